@@ -151,7 +151,7 @@ class Sim:
         ev = []
         started = [s != "new" for s in self.state]
         for i, s in enumerate(self.state):
-            if s == "new":
+            if s == "new" and not self.closed:
                 # symmetry: identical tasks (same host) start in index order
                 if all(started[j] for j in range(i) if self.cfg["hosts"][j] == self.cfg["hosts"][i]):
                     ev.append(("start", i))
@@ -163,16 +163,17 @@ class Sim:
                 ev.append(("release", i))
                 ev.append(("close", i))
                 ev.append(("cancel", i))
-            elif s == "waiting":
+            elif s in ("waiting", "starting"):
                 ev.append(("cancel", i))
         if not self.closed and any(started):
             ev.append(("closeall",))
         return ev
 
-    def apply(self, ev: tuple, settle: bool = True) -> None:
+    def apply(self, ev: tuple, settle=True) -> None:
         kind = ev[0]
         if kind == "start":
             i = ev[1]
+            self.state[i] = "starting"
             self.tasks[i] = self.loop.create_task(self._task(i))
         elif kind in ("ok", "fail"):
             i = ev[1]
@@ -197,11 +198,19 @@ class Sim:
         elif kind == "closeall":
             self.closed = True
             self.loop.create_task(self.connector.close())
-        if settle:
+        if settle is True:
             self.settle(ev)
+        elif settle:
+            # a bounded number of loop iterations: the next event lands between two callbacks of the same cascade
+            for _ in range(int(settle)):
+                self.loop.step()
 
     def settle(self, ev) -> None:
         self.loop.run_until_idle()
+        for i, t in enumerate(self.tasks):
+            # a task cancelled before it ever ran never updates its own state
+            if t is not None and t.done() and self.state[i] == "starting":
+                self.state[i] = "cancelled"
         self.check(ev)
 
     def check(self, ev) -> None:
@@ -248,7 +257,7 @@ class Sim:
                     progressed = True
             if not progressed:
                 break
-        stuck = [i for i, s in enumerate(self.state) if s in ("waiting", "connecting", "holding")]
+        stuck = [i for i, s in enumerate(self.state) if s in ("waiting", "connecting", "holding", "starting")]
         if stuck and not self.closed:
             raise Violation("lost-wakeup", f"tasks {stuck} never get a connection although everybody else has finished: states {self.state}")
         acq = getattr(self.connector, "_acquired", None)
@@ -269,17 +278,21 @@ class Sim:
         self.loop.shutdown()
 
 
-def run_schedule(cfg: dict, events: list, batch: set | None = None) -> dict:
-    """Execute a complete schedule (skipping events that are not enabled)."""
+def run_schedule(cfg: dict, events: list, batch: set | None = None, steps: dict | None = None) -> dict:
+    """Execute a complete schedule (skipping events that are not enabled).
+
+    batch: indexes of events after which the loop does not run at all before the next event;
+    steps: index -> number of loop iterations to run after that event instead of running until idle."""
     sim = Sim(cfg)
     try:
         batch = batch or set()
+        steps = {int(k): v for k, v in (steps or {}).items()}
         applied = []
         for k, ev in enumerate(events):
             ev = tuple(ev)
             if ev not in sim.enabled():
                 continue
-            sim.apply(ev, settle=k not in batch)
+            sim.apply(ev, settle=(steps[k] if k in steps else (k not in batch)))
             applied.append(ev)
         sim.settle(("end",))
         sim.final_checks()
@@ -290,17 +303,20 @@ def run_schedule(cfg: dict, events: list, batch: set | None = None) -> dict:
 
 
 def body(rec: Rec, case: dict) -> None:
-    r = run_schedule(case["cfg"], case["events"], set(case.get("batch") or []))
+    r = run_schedule(case["cfg"], case["events"], set(case.get("batch") or []), case.get("steps"))
     labels = []
     if r["waited"]:
         labels.append("waited")
     labels += sorted({"ev:" + e[0] for e in r["applied"]})
-    rec.case({"cfg": case["cfg"], "ev": r["applied"], "b": sorted(case.get("batch") or [])}, r["nt"], labels)
+    rec.case({"cfg": case["cfg"], "ev": r["applied"], "b": sorted(case.get("batch") or []), "s": case.get("steps")}, r["nt"], labels)
 
 
 # ------------------------------------------------------------------ exhaustive enumeration by re-execution
-def enumerate_schedules(rec: Rec, cfg: dict, depth: int) -> None:
-    """DFS over event sequences; the enabled set is recomputed by re-running the prefix."""
+def enumerate_schedules(rec: Rec, cfg: dict, depth: int, shard: int = 0, nshards: int = 1) -> None:
+    """DFS over event sequences; the enabled set is recomputed by re-running the prefix.
+
+    A schedule entry is (event, settle): settle=False means the next event is delivered in the same loop
+    iteration (before any task had a chance to run).  At most one such pair per schedule."""
     stack: list[list] = [[]]
     while stack:
         prefix = stack.pop()
@@ -310,22 +326,41 @@ def enumerate_schedules(rec: Rec, cfg: dict, depth: int) -> None:
         sim = Sim(cfg)
         try:
             try:
-                for ev in prefix:
-                    sim.apply(ev)
+                for ev, settle in prefix:
+                    sim.apply(ev, settle=settle)
                 enabled = sim.enabled()
                 if len(prefix) >= depth or not enabled:
+                    sim.settle(("end",))
                     sim.final_checks()
-                    kinds = {e[0] for e in prefix}
+                    kinds = {e[0] for e, _s in prefix}
                     nt = sim.waited and bool(kinds & {"cancel", "fail", "closeall"})
-                    rec.case({"cfg": cfg, "ev": prefix}, nt, ["enum"] + (["waited"] if sim.waited else []))
+                    batched = any(s is not True for _e, s in prefix)
+                    rec.case({"cfg": cfg, "ev": prefix}, nt, ["enum"] + (["waited"] if sim.waited else []) + (["batched"] if batched else []))
                     continue
             except Violation as v:
-                rec.fail(v.key, v.msg, {"cfg": cfg, "events": [list(e) for e in prefix], "batch": []})
+                rec.fail(v.key, v.msg, {"cfg": cfg, "events": [list(e) for e, _s in prefix], "steps": {str(k): int(s) for k, (_e, s) in enumerate(prefix) if s is not True}})
                 continue
         finally:
             sim.dispose()
+        can_batch = all(s is True for _e, s in prefix) and len(prefix) + 1 < depth
+        if len(prefix) == SHARD_LEVEL and nshards > 1:
+            # the subtrees below this level are dealt out to the shards
+            key = sum((k + 1) * (hash_ev(e) + (0 if st_ is True else 7)) for k, (e, st_) in enumerate(prefix))
+            if key % nshards != shard:
+                continue
         for ev in reversed(enabled):
-            stack.append(prefix + [ev])
+            stack.append(prefix + [(ev, True)])
+            if can_batch and ev[0] in ("release", "close", "fail", "ok", "cancel"):
+                for partial in (False, 1, 2):
+                    stack.append(prefix + [(ev, partial)])
+
+
+SHARD_LEVEL = 3
+_EV_CODE = {"start": 1, "ok": 2, "fail": 3, "release": 4, "close": 5, "cancel": 6, "closeall": 7}
+
+
+def hash_ev(e: tuple) -> int:
+    return _EV_CODE[e[0]] * 5 + (e[1] if len(e) > 1 else 0)
 
 
 CONFIGS_SMALL = [
@@ -344,9 +379,9 @@ CONFIGS_SMALL = [
 ]
 
 
-def unit_enum(rec: Rec, cfg: dict, depth: int) -> None:
+def unit_enum(rec: Rec, cfg: dict, depth: int, shard: int = 0, nshards: int = 1) -> None:
     rec.exhaustive = True
-    enumerate_schedules(rec, cfg, depth)
+    enumerate_schedules(rec, cfg, depth, shard, nshards)
 
 
 @st.composite
@@ -361,7 +396,8 @@ def cases(draw):
     )
     events = [("start", i) for i in range(draw(st.integers(1, n)))] + draw(st.lists(ev, min_size=2, max_size=16))
     batch = draw(st.sets(st.integers(0, len(events) - 1), max_size=4))
-    return {"cfg": cfg, "events": events, "batch": sorted(batch)}
+    steps = draw(st.dictionaries(st.integers(0, len(events) - 1).map(str), st.integers(1, 3), max_size=4))
+    return {"cfg": cfg, "events": events, "batch": sorted(batch), "steps": steps}
 
 
 def unit_hyp(rec: Rec, n: int, offset: int) -> None:
@@ -370,10 +406,12 @@ def unit_hyp(rec: Rec, n: int, offset: int) -> None:
 
 def units(tier: str, seed: int) -> list[Unit]:
     us = []
-    depth = 7 if tier == "quick" else 10
+    depth = 6 if tier == "quick" else 9
+    ns = 3 if tier == "quick" else 8
     for k, cfg in enumerate(CONFIGS_SMALL):
         d = depth if len(cfg["hosts"]) <= 3 else depth - 1
-        us.append(Unit(f"enum{k}", unit_enum, {"cfg": cfg, "depth": d}))
+        for sh in range(ns):
+            us.append(Unit(f"enum{k}.{sh}", unit_enum, {"cfg": cfg, "depth": d, "shard": sh, "nshards": ns}))
     n = 400 if tier == "quick" else 15000
     for i in range(6):
         us.append(Unit(f"hyp{i}", unit_hyp, {"n": n, "offset": i}))
@@ -381,4 +419,5 @@ def units(tier: str, seed: int) -> list[Unit]:
 
 
 def replay(rec: Rec, case: dict) -> None:
-    run_schedule(case["cfg"], [tuple(e) for e in case.get("events") or case.get("ev") or []], set(case.get("batch") or case.get("b") or []))
+    run_schedule(case["cfg"], [tuple(e) for e in case.get("events") or case.get("ev") or []], set(case.get("batch") or case.get("b") or []),
+                 case.get("steps") or case.get("s"))
